@@ -1,1 +1,86 @@
-// kani harnesses for this module (see /verif/DESIGN.md)
+// K05: the single-quote escaping wrapper `Shell` (src/complete_shell.rs) – bounded: 2 / 3 ASCII characters.
+// From C15: "quoted so that the shell treats it as data": the output is one single-quoted word in which every `'`
+// of the input appears as `'\''` and every other byte is unchanged.
+use super::*;
+use std::fmt::Write;
+
+struct Sink {
+    buf: [u8; 24],
+    len: usize,
+}
+impl std::fmt::Write for Sink {
+    fn write_str(&mut self, s: &str) -> std::fmt::Result {
+        let b = s.as_bytes();
+        let mut i = 0;
+        while i < b.len() {
+            if self.len < 24 {
+                self.buf[self.len] = b[i];
+                self.len += 1;
+            }
+            i += 1;
+        }
+        Ok(())
+    }
+}
+
+fn check(input: &[u8], n: usize) {
+    let mut v = Vec::with_capacity(n);
+    let mut i = 0;
+    while i < n {
+        v.push(input[i]);
+        i += 1;
+    }
+    // sound: the caller assumes ASCII
+    let s = unsafe { String::from_utf8_unchecked(v) };
+    let mut sink = Sink { buf: [0; 24], len: 0 };
+    let r = write!(sink, "{}", Shell(&s));
+    assert!(r.is_ok());
+    // expected text
+    let mut exp = [0u8; 24];
+    let mut m = 0;
+    exp[m] = b'\'';
+    m += 1;
+    let mut i = 0;
+    while i < n {
+        if input[i] == b'\'' {
+            exp[m] = b'\'';
+            exp[m + 1] = b'\\';
+            exp[m + 2] = b'\'';
+            exp[m + 3] = b'\'';
+            m += 4;
+        } else {
+            exp[m] = input[i];
+            m += 1;
+        }
+        i += 1;
+    }
+    exp[m] = b'\'';
+    m += 1;
+    assert!(sink.len == m);
+    let mut i = 0;
+    while i < 24 {
+        if i < m {
+            assert!(sink.buf[i] == exp[i]);
+        }
+        i += 1;
+    }
+    std::mem::forget(s);
+}
+
+#[kani::proof]
+#[kani::unwind(26)]
+fn k05_shell_quote_ascii2() {
+    let b: [u8; 2] = kani::any();
+    kani::assume(b[0] < 128 && b[1] < 128);
+    kani::cover!(b[0] == b'\'' && b[1] == b'\'');
+    check(&b, 2);
+}
+
+#[kani::proof]
+#[kani::unwind(26)]
+fn k05_shell_quote_ascii3() {
+    let b: [u8; 3] = kani::any();
+    kani::assume(b[0] < 128 && b[1] < 128 && b[2] < 128);
+    kani::cover!(b[1] == b'\'');
+    check(&b, 3);
+}
